@@ -91,19 +91,9 @@ theorem destroySelfX_eq_step (hrec : RecWF rec) (db : DB) (hwf : db.WF) :
   cases hr : procDeps S rec c i (dependents S c) db1 with
   | ok db2 =>
     simp [resSt]
-    dhead
-    simp [gCall_soDelete]
-    dhead
-    simp [gSetAttr_obsolete]
-    dhead
-    simp [gCall_expire]
-    dhead
-    simp [forLoop]
-    dhead
-    dhead
-    simp [gCall_send]
-    dhead
-    simp [forLoop, Res.toCall, resImg, delRow]
+    -- the tail: `_SO_delete`, `_obsolete`, `cache.expire` (in whatever order), the post-function loops, the signal
+    iterate 7 (dhead; try simp [gCall_soDelete, gSetAttr_obsolete, gCall_expire, gCall_send, forLoop])
+    simp [Res.toCall, resImg, delRow]
   | refused db2 => simp [resSt, Res.toCall, resImg]
   | fuel db2 => simp [resSt, Res.toCall, resImg]
 
